@@ -314,8 +314,8 @@ Section Gen.
       assert (Gchunk : good n0 n1 (NBytecode (of_code bc))).
       { exists (TChunk bc Hc). split; [reflexivity|]. eapply eff_weakenI; [apply (eff_chunkI [] n0 bc Hc Hval)|lia|lia]. }
       assert (Gk : forall v, good n0 n1 (NConst v)) by (intros v; eapply good_weaken; [apply (good_const n0)|lia|lia]).
-      destruct (fst (run fuel compile_env bc true 0 [])) as [v|e| | |]; try discriminate H.
-      + destruct (contains_err v); apply cret_ok in H; destruct H as [-> ->]; (split; [exact L1|]); [exact Gchunk|apply Gk].
+      destruct (run fuel compile_env bc true 0 []) as [[v|e| | |] lgc]; try discriminate H.
+      + destruct (runtime_requested lgc || contains_err v); apply cret_ok in H; destruct H as [-> ->]; (split; [exact L1|]); [exact Gchunk|apply Gk].
       + apply cret_ok in H. destruct H as [-> ->]. split; [exact L1|exact Gchunk].
     - (* index *)
       apply cbind_ok in H. destruct H as (ci & n1 & Hi & H). apply cret_ok in H. destruct H as [-> ->].
